@@ -98,6 +98,7 @@ Definition hs_twice (x : hscan) : option N :=
    then PUBREC for QoS 2; after a PUBREL whose id is stored: (callback in default mode,) PUBCOMP,
    DeletePacket(Incoming).  A callback error ends the sequence (the client dies). *)
 Inductive yexp :=
+| YInit                    (* no packet received yet on this Client *)
 | YNone
 | YPub (p : packet)        (* PUBLISH received: callback or, without callback, the first acknowledgement step *)
 | YAck (id : N)            (* Send(PUBACK id) *)
@@ -116,10 +117,11 @@ Definition after_cb_exp (p : packet) : yexp :=
 
 Definition ack_step (y : yexp) (e : event) : option yexp :=
   match e with
-  | ENew _ => Some YNone
+  | ENew _ => Some YInit
   | _ =>
     if proc_obs e then
       match y, e with
+      | YInit, _ => Some YNone
       | YNone, ERx (Publish d m id) => Some (if m_qos m =? 0 then YNone else YPub (Publish d m id))
       | YNone, ERx (Pubrel id) => Some (YRel id)
       | YNone, ECb _ Fail => Some YNone
